@@ -36,6 +36,17 @@ def build_harness():
     log(f"[build] harness built in {time.time()-t:.1f}s")
 
 
+def prune_work():
+    """Remove scratch directories left by finished check processes (<tag>.<pid> with a dead pid)."""
+    if not os.path.isdir(WORK):
+        return
+    for name in os.listdir(WORK):
+        m = re.match(r"^.+\.(\d+)$", name)
+        path = os.path.join(WORK, name)
+        if m and os.path.isdir(path) and not os.path.exists(f"/proc/{m.group(1)}"):
+            shutil.rmtree(path, ignore_errors=True)
+
+
 def workdir(tag):
     d = os.path.join(WORK, f"{tag}.{os.getpid()}")
     os.makedirs(d, exist_ok=True)
